@@ -596,6 +596,26 @@ pub fn run_request_pages(out: &mut Out, _tier: &str, rng: &mut Rng) {
             reqs.push((dlc, [(low & 0xFF) as u8, (low >> 8) as u8, 0]));
         }
     }
+    // the served groups asked for by EVERY source address 0..=255 (the null and the global address included): who asks does not
+    // matter, a request addressed to the node is answered
+    let mut by_source: Vec<[u8; 16]> = vec![];
+    for low in [0xEE00u32, 0xFEDA, 0xFEE6, 0xFEEB] {
+        for src in 0..=255u8 {
+            by_source.push(raw_of(make_id(6, 59904, 0x27, src), &[(low & 0xFF) as u8, (low >> 8) as u8, 0, 0xFF, 0xFF, 0xFF, 0xFF, 0xFF]));
+        }
+    }
+    {
+        let mut rig = Rig::new(&cfg).expect("authority");
+        let mut h = Hist { rig: &mut rig, ins: vec![], outs: vec![] };
+        h.setup();
+        for raw in &by_source {
+            h.frame(raw);
+        }
+        h.cycle();
+        let (ins, outs) = (h.ins.join(" "), h.outs.join(" "));
+        out.case(&format!("auth {} {}", cfg.tok(), ins), &outs, true);
+        out.count("request sweep: served groups from every source address 0..255");
+    }
     for part in reqs.chunks(2048) {
         let mut rig = Rig::new(&cfg).expect("authority");
         let mut h = Hist { rig: &mut rig, ins: vec![], outs: vec![] };
@@ -622,6 +642,11 @@ pub fn run_c16_auth(out: &mut Out, tier: &str, rng: &mut Rng) {
     let thorough = tier == "thorough";
     for rep in 0..(if thorough { 480 } else { 96 }) {
         let mut drivers = vec![];
+        // an entry with an unknown (vendor, product) pair - a typo in the configuration - anywhere in the list: the units
+        // listed after it are units all the same
+        if rng.chance(1, 3) {
+            drivers.push(DriverCfg { da: 0x33, sa: None, timeout: None, vendor: "kuebler".into(), product: "encoder".into() });
+        }
         for k in 0..rng.below(4) {
             // silent units too: a 0 ms timeout has always expired when teardown runs
             let timeout = *rng.pick(&[Some(3_600_000u64), Some(0), None]);
@@ -631,6 +656,10 @@ pub fn run_c16_auth(out: &mut Out, tier: &str, rng: &mut Rng) {
             let d = known_driver(rng, Some(3_600_000));
             if d.product != "hcu" && !drivers.iter().any(|x: &DriverCfg| x.da == d.da) {
                 drivers.push(d);
+            }
+            if rng.chance(1, 4) {
+                drivers.push(DriverCfg { da: 0x34, sa: None, timeout: Some(1000), vendor: "acme".into(), product: "widget".into() });
+                drivers.push(DriverCfg { da: 0x4E, sa: None, timeout: None, vendor: "laixer".into(), product: "hcu".into() });
             }
         }
         let cfg = NetCfg { address: 0x27, name: default_name(), drivers };
